@@ -438,6 +438,9 @@ def assemble(unit_path, repo=REPO):
             names = [n_ for n_ in names if idx.get(n_, ('', ''))[1] != 'type']
             asm.add('// ---- declared-assumption: field parsers are abstract at message level (their contracts live in the fld_* units)')
             for n_ in names:
+                if len(toks) > 1 and toks[1] == 'ser':
+                    asm.add('impl SwiftField for %s { uninterp spec fn ser(&self) -> Seq<char>; #[verifier::external_body] fn to_swift_string(&self) -> (r: String) { unimplemented!() } }' % n_)
+                    continue
                 asm.add('impl SwiftField for %s { uninterp spec fn parse_ok(v: Seq<char>) -> bool; uninterp spec fn parse_val(v: Seq<char>) -> Self; }' % n_)
             asm.add('// ---- end declared-assumption')
             asm.manual.append('declared assumption (unit stub): %d field types implement the abstract SwiftField contract' % len(names))
